@@ -104,7 +104,7 @@ def run_unit(u, tier, pid=None):
     ur.seeds = []
     if tier == 'thorough' and not ur.error:
         # stability: two more solver seeds and half the resource limit
-        extra = [['-V', 'smt.random_seed=7'] if False else ['--smt-option', 'smt.random_seed=7'], ['--smt-option', 'smt.random_seed=31', '--rlimit', '5']]
+        extra = [['-V', 'smt.random_seed=7'] if False else ['--smt-option', 'smt.random_seed=7'], ['--smt-option', 'smt.random_seed=31', '--rlimit', '10']]
         for ex_ in extra:
             rr = V.run(out, extra=ex_)
             v2, u2 = V.classify(rr.diags, gen)
